@@ -524,7 +524,9 @@ def r165(chk, m, cfg, opts):
     # make the interpolation visible: a string with a reference and a doubled percent, a list with both, a plain one
     find_opt(c2, 'general', 'theme').attrs['value'] = 'T%%1'
     find_opt(c2, 'files', 'directory').attrs['value'] = 'out-%(theme)s-%(renderer)s-100%%'
-    find_opt(c2, 'general', 'extra-templates').attrs['value'] = ['a-%(jobtheme)s' if False else 'a-%(theme)s', 'b%%', 'c']
+    find_opt(c2, 'general', 'extra-templates').attrs['value'] = ['a-%(theme)s', 'b%%', 'c']
+    # references to options whose current value is empty, zero or False
+    find_opt(c2, 'general', 'kpsewhich').attrs['value'] = 'k[%(title)s|%(baseline-padding)s|%(debug)s]'
     flat = {}
     for sname, key, o in options_of(c2):
         flat.setdefault(key, o.attrs['value'])
@@ -585,6 +587,7 @@ FILES = {
     'one.ini': [('general', [('theme', 'one'), ('extra-templates', 'a b'), ('XML', 'yes'), ('plugins', 'p')]),
                 ('files', [('Split-Level', '5'), ('no-such-option', 'x')]),
                 ('counters', [('MyCounter', '3'), ('chapter', '1')]),
+                ('logging', [('parser', 'DEBUG')]),
                 ('nosuchsection', [('k', 'v')])],
     'two.ini': [('general', [('theme', 'two'), ('plugins', 'q')]),
                 ('counters', [('chapter', '2')])],
@@ -613,15 +616,15 @@ def r166(chk, m, cfg, opts):
                  'dictionary options keep their case, unknown sections and keys are skipped, a missing file is ignored, a single file '
                  'name is accepted', 4)
     wanted = [('general', 'theme'), ('general', 'extra-templates'), ('general', 'plugins'), ('general', 'xml'), ('files', 'split-level'), ('counters', 'counters'),
-              ('general', 'renderer')]
+              ('logging', 'logging'), ('links', 'links'), ('general', 'renderer')]
     cases = [('one file', ['one.ini'], "general.theme='one' general.extra-templates=['a', 'b'] general.plugins=['p'] general.xml=True files.split-level=5 "
-              "counters.counters={'MyCounter': 3, 'chapter': 1} general.renderer='HTML5'"),
+              "counters.counters={'MyCounter': 3, 'chapter': 1} logging.logging={'parser': 'DEBUG'} links.links={} general.renderer='HTML5'"),
              ('two files, the later one wins', ['one.ini', 'two.ini'], "general.theme='two' general.extra-templates=['a', 'b'] general.plugins=['p', 'q'] general.xml=True files.split-level=5 "
-              "counters.counters={'MyCounter': 3, 'chapter': 2} general.renderer='HTML5'"),
+              "counters.counters={'MyCounter': 3, 'chapter': 2} logging.logging={'parser': 'DEBUG'} links.links={} general.renderer='HTML5'"),
              ('a missing file among the names', ['missing.ini', 'two.ini'], "general.theme='two' general.extra-templates=[] general.plugins=['q'] general.xml=False files.split-level=2 "
-              "counters.counters={'chapter': 2} general.renderer='HTML5'"),
+              "counters.counters={'chapter': 2} logging.logging={} links.links={} general.renderer='HTML5'"),
              ('a single file name', 'two.ini', "general.theme='two' general.extra-templates=[] general.plugins=['q'] general.xml=False files.split-level=2 "
-              "counters.counters={'chapter': 2} general.renderer='HTML5'")]
+              "counters.counters={'chapter': 2} logging.logging={} links.links={} general.renderer='HTML5'")]
     for label, names, want in cases:
         try:
             fn, outs = read_config(m, cfg, names)
